@@ -21,14 +21,14 @@ Nodes == 1..N
 \* configurations: heterogeneous timeouts, one claim per node; bootstrap: node n dials node n-1 (a path)
 TOf(n) == IF n = 1 THEN 3 ELSE IF n = 2 THEN 5 ELSE 4
 Cfg(n) == [self |-> n, nid |-> <<n, 0>>, T |-> TOf(n), ka |-> -1, adv |-> {}, key |-> "k", trusted |-> {"k"},
-           claims |-> <<"r" \o ToString(n)>>, plain |-> FALSE, learn |-> FALSE, bc |-> FALSE]
+           claims |-> <<"r" \o ToString(n)>>, plain |-> FALSE, learn |-> FALSE, bc |-> FALSE, st |-> 3]
 
 VARIABLES now, st, net, turn, silentFrom, lost
 vars == <<now, st, net, turn, silentFrom, lost>>
 MaxLoss == 3
 \* turn: 0 = datagrams are being delivered, n > 0 = node n is the next to do its housekeeping in this tick
 
-Fresh(n) == [peers |-> {}, pend |-> {}, claims |-> {}, own |-> {n}, np |-> 0, nr |-> OWN_RESET,
+Fresh(n) == [peers |-> {}, pend |-> {}, claims |-> {}, cache |-> {}, cx |-> {}, cseq |-> <<>>, own |-> {n}, np |-> 0, nr |-> OWN_RESET,
              rc |-> IF DialKind = "reconnect" /\ n > 1 THEN <<[a |-> <<n - 1>>, tries |-> 0, to |-> 1, next |-> 0]>> ELSE <<>>]
 
 InfoOf(n) == LET s == st[n] IN
